@@ -191,6 +191,18 @@ fn main() {
         Some("a85hex") => cmd_a85hex(args.get(2).and_then(|s| s.parse().ok()).unwrap_or(5)),
         Some("a85hex-roundtrip") => cmd_a85hex_roundtrip(args.get(2).and_then(|s| s.parse().ok()).unwrap_or(4)),
         Some("fmt") => cmd_fmt(),
+        Some("decode") => {
+            // decode <FilterName> <hex bytes> [max]: run the real decoder on one input
+            let filter = args[2].clone();
+            let data: Vec<u8> = (0..args[3].len() / 2).map(|i| u8::from_str_radix(&args[3][2 * i..2 * i + 2], 16).unwrap()).collect();
+            let dict = dict_with_filter(&filter);
+            let opts = ParseOptions::default();
+            let r = match args.get(4).and_then(|s| s.parse::<usize>().ok()) {
+                Some(m) => panic::catch_unwind(|| decode_stream_with_limit(&data, &dict, &opts, m)),
+                None => panic::catch_unwind(|| decode_stream(&data, &dict, &opts)),
+            };
+            println!("{{\"cmd\":\"decode\",\"filter\":{},\"input\":{:?},\"result\":{}}}", js(&filter), data, js(&format!("{:?}", r.map_err(|_| "PANIC"))));
+        }
         _ => { eprintln!("usage: verif-replay letters|enc-tables|a85hex|a85hex-roundtrip|fmt"); std::process::exit(2); }
     }
 }
